@@ -1,3 +1,77 @@
-import SimVerif.HttpServer
+/-
+  SimVerif.Props.C16 — HTTP test server (`sim::http_server`): one response per request, in
+  order, for any segmentation.
+
+  Objects: the mechanism model `SimVerif/HttpServer.lean` (one function per callback of the
+  C++ class), the connection-level system `SimVerif/HttpServerSys.lean` (`serve`/`run`: the
+  callbacks driven by an environment that delivers the client's bytes in an ARBITRARY
+  chunking, one chunk per read completion, clipped to the capacity `read()` offers), and the
+  reference `specStream` (the statement on a plain byte stream).
+-/
+import SimVerif.HttpServerSys
+import SimVerif.Lemmas.HttpServerBasic
+import SimVerif.Lemmas.HttpServerCb
+
 namespace SimVerif.HttpServer
+
+open SimVerif.Http
+
+/-! ## keep-alive -/
+
+/-- After a response has been written the connection is kept (the server re-enters `on_read`
+    through `post`, with nothing else changed) IFF keep-alive is enabled and the request did
+    not ask for close; otherwise — and only otherwise — `close_connection()` runs. The `close`
+    flag bound into `on_write` is `lower_case(headers["connection"]) == "close"` of the request
+    that was answered. -/
+theorem C16_keepalive_iff (s : Srv) (close : Bool) :
+    (s.onWrite .ok close = (s, [.postOnRead]) ↔ (s.keepAlive = true ∧ close = false)) ∧
+    (¬(s.keepAlive = true ∧ close = false) →
+        s.onWrite .ok close = ({ s with buf := [], used := 0 }, closeActs s)) ∧
+    (∀ (req : Request) (r : Bytes) (c : Bool), answer s req = .respond r c →
+        c = (lowerCase ((mapLookup CONNECTION req.headers).getD []) == CLOSE)) := by
+  refine ⟨onWrite_keep s close, onWrite_close s close, ?_⟩
+  intro req r c h
+  unfold answer at h
+  split at h
+  · split at h
+    · simp at h
+    · simp at h; exact h.2.symm
+  · split at h <;> simp at h
+    exact h.2.symm
+
+/-! ## errors close only this connection -/
+
+/-- End-of-file or any error reported to `on_read`, an error reported to `on_write` or
+    `on_accept`: the receive buffer is reset, the connection socket is closed, `async_accept`
+    is re-armed (unless the server is stopping) — and NOTHING else changes (tables, flags, the
+    send buffer are the same). -/
+theorem C16_error_closes_only_this (s : Srv) (ec : Ec) (hec : ec ≠ .ok) :
+    (∀ data, s.onRead ec data = ({ s with buf := [], used := 0 }, closeActs s)) ∧
+    (∀ c, s.onWrite ec c = ({ s with buf := [], used := 0 }, closeActs s)) ∧
+    s.onAccept ec = ({ s with buf := [], used := 0 }, closeActs s) ∧
+    (s.closing = false → closeActs s = [.closeConn, .asyncAccept]) :=
+  ⟨fun data => onRead_err s ec data hec, fun c => onWrite_err s ec c hec, onAccept_err s ec hec,
+   fun h => by simp [closeActs, h]⟩
+
+/-! ## stop -/
+
+/-- `stop()` sets `m_close` and closes the listen socket (the acceptor's `close()`); from then
+    on `m_close` stays set under every callback, no callback ever starts an `async_accept`
+    again, and `close_connection()` only closes the connection. (That the acceptor's `close()`
+    unbinds the port and refuses later connects is the acceptor's business — C07/C11; on
+    implementation traces it is the monitor clause `stop_frees_port` / `stop_refuses`.) -/
+theorem C16_stop (s : Srv) :
+    s.stop = ({ s with closing := true }, [.closeListen]) ∧
+    ∀ s' : Srv, s'.closing = true →
+      (∀ ec, (s'.onAccept ec).1.closing = true ∧ Act.asyncAccept ∉ (s'.onAccept ec).2) ∧
+      (∀ ec data, (s'.onRead ec data).1.closing = true ∧ Act.asyncAccept ∉ (s'.onRead ec data).2) ∧
+      (∀ ec c, (s'.onWrite ec c).1.closing = true ∧ Act.asyncAccept ∉ (s'.onWrite ec c).2) ∧
+      s'.closeConnection = ({ s' with buf := [], used := 0 }, [.closeConn]) := by
+  refine ⟨rfl, ?_⟩
+  intro s' hc
+  refine ⟨fun ec => onAccept_closing s' hc ec, fun ec data => onRead_closing s' hc ec data,
+    fun ec c => onWrite_closing s' hc ec c, ?_⟩
+  rw [closeConnection_eq]
+  simp [closeActs, hc]
+
 end SimVerif.HttpServer
